@@ -56,6 +56,21 @@ def string_program(s, raw, form):
             'ys: [int...] = [1, 2]\nprint ys.map(fn(q: int) -> int {\n\treturn q + 1\n})\nprint "end"\n') % (lit, lit)
 
 
+# characters outside the property's alphabet that writers and readers of the file format have been seen to treat specially:
+# control characters other than TAB/LF/CR, invisible and combining characters, other blanks, and characters whose code point
+# has the low byte of a format-special one (U+0109 ~ TAB, U+010A ~ LF, U+010D ~ CR, U+0122 / U+2022 ~ quote, U+015C ~ backslash)
+ODD_CHARS = ["\x1b", "\x07", "\x0b", "\x0c", "\x7f", "\x01", "\u0085", "\u200b", "\u200d", "\u00ad", "e\u0301", "\u2764\ufe0f", "\u3000", "\u2028",
+             "\u0109", "\u010a", "\u010d", "\u0122", "\u2022", "\u015c", "\u4e0a", "\U0001f600", "\ufffd", "\u00ff", "\u0100"]
+
+
+def odd_strings():
+    for ch in ODD_CHARS:
+        yield ch
+        yield "a" + ch + "b c"
+    yield "".join(ODD_CHARS[:6])
+    yield "".join(ODD_CHARS[14:21])
+
+
 def all_strings(maxlen):
     for n in range(0, maxlen + 1):
         for t in itertools.product(ALPHABET, repeat=n):
